@@ -862,7 +862,13 @@ fn gen_leaf(rng: &mut Rng, fns: &[String], has_data: bool, fail: bool) -> S {
                 _ => S::Print(vec![(E::Cell("C".to_string(), ix(rng)), ';'), (E::Cell("C".to_string(), ix(rng)), ';')], false),
             }
         }
-        14 if fail => match rng.below(8) {
+        14 if fail => match rng.below(12) {
+            // two faults at one statement: which error wins is part of the behaviour (an array that already exists - from
+            // an earlier DIM or from a cell access - re-dimensioned with more than 10000 cells or a negative bound)
+            8 => S::Dim("P".into(), vec![E::Num(100.0), E::Num(100.0)]),
+            9 => S::Dim("Q".into(), vec![E::Num(10000.0)]),
+            10 => S::Dim("P".into(), vec![E::Neg(Box::new(E::Num(1.0)))]),
+            11 => S::Dim("N$".into(), vec![E::Num(30.0), E::Num(30.0), E::Num(30.0)]),
             0 => S::Let("A".into(), None, E::Bin("/", Box::new(E::Num(1.0)), Box::new(E::Num(0.0)))),
             1 => S::Let("A".into(), None, E::Str("x".into())),
             2 => S::Print(vec![(E::Cell("P".into(), vec![E::Num(11.0)]), ';')], false),
